@@ -315,6 +315,58 @@ func runC06Proto(w *W) {
 				}
 			})
 		}
+		if pick("ep.pb.field") {
+			// single-field lookups (by number and by name), element lookups by index and the accessor of the declared kind
+			c.guarded("pb.Value.Field+accessor", len(b), func() {
+				v := pgeneric.NewRootValue(desc, b)
+				access := func(n pgeneric.Node, k pKind) {
+					if n.IsError() {
+						return
+					}
+					switch k {
+					case pkBool:
+						n.Bool()
+					case pkUint32, pkUint64, pkFixed32, pkFixed64:
+						n.Uint()
+					case pkDouble, pkFloat:
+						n.Float64()
+					case pkString:
+						n.String()
+					case pkBytes:
+						n.Binary()
+					case pkMessage:
+						n.Raw()
+					default:
+						n.Int()
+					}
+				}
+				for _, f := range sch.Root().Fields {
+					for k := 0; k < 2; k++ {
+						var g pgeneric.Value
+						if k == 0 {
+							g = v.Field(proto.FieldNumber(f.Num))
+						} else {
+							g = v.FieldByName(f.Name)
+						}
+						if g.IsError() {
+							continue
+						}
+						switch f.Card {
+						case cSingle:
+							access(g.Node, f.K)
+						case cRepeated:
+							g.Len()
+							for _, i := range []int{0, 1, 5, 1000} {
+								access(g.Index(i).Node, f.K)
+							}
+						default:
+							g.Len()
+							g.Raw()
+						}
+					}
+				}
+			})
+		}
 		if pick("ep.pb.interface") {
 			c.guarded("pb.Value.Interface", len(b), func() {
 				o := &pgeneric.Options{MapStructById: t.Chance(1, 2, "ep.pb.iface.byid")}
